@@ -56,7 +56,7 @@ CHECKS = {
              "harnesses": [
                  {"name": "VerifC03Committed", "quick": {"msgs": 3}, "thorough": {"msgs": 4},
                   "covers": ["done", "start-beyond-hw", "hw-advanced"], "targets": ["committedReader).Read", "committedReader).readLoop", "getHWPos"]},
-                 {"name": "VerifC03Wakeup", "quick": {"msgs": 2}, "thorough": {"msgs": 3},
+                 {"name": "VerifC03Wakeup", "quick": {"msgs": 3}, "thorough": {"msgs": 4},
                   "covers": ["done", "parked-after-reading"], "targets": ["committedReader).waitForHW", "commitLog).notifyHWChange"]},
                  {"name": "VerifC03Schedules", "quick": {"appends": 2, "rolls": 1, "hwsets": 2, "preemptions": 1}, "thorough": {"appends": 2, "rolls": 1, "hwsets": 2, "preemptions": 2},
                   "replay": "interpreted", "max-paths": 1000000,
@@ -91,7 +91,7 @@ CHECKS = {
         "groups": [
             {"pkg": "./server/commitlog", "overlay": "commitlog", "pkgname": "commitlog",
              "harnesses": [
-                 {"name": "VerifC16ConditionalAppend", "quick": {"publishes": 3}, "thorough": {"publishes": 5},
+                 {"name": "VerifC16ConditionalAppend", "quick": {"publishes": 5}, "thorough": {"publishes": 8},
                   "covers": ["done", "accepted", "refused"], "targets": ["newMessageSetFromProto", "commitLog).Append"]},
                  {"name": "VerifC16AgainstRoll", "quick": {"preemptions": 1}, "thorough": {"preemptions": 2}, "replay": "interpreted",
                   "covers": ["done"], "targets": ["commitLog).Append", "commitLog).rollActiveSegment"]},
@@ -247,7 +247,7 @@ CHECKS = {
         "groups": [
             {"pkg": "./server", "overlay": "server", "pkgname": "server",
              "harnesses": [
-                 {"name": "VerifC13GroupSubscribe", "quick": {"steps": 5}, "thorough": {"steps": 6},
+                 {"name": "VerifC13GroupSubscribe", "quick": {"steps": 6}, "thorough": {"steps": 7},
                   "covers": ["done", "accepted", "refused", "replaced", "client-cancel", "message"],
                   "targets": ["partition).Subscribe", "partition).removeGroupSubscriber", "subscription).Close"]},
                  {"name": "VerifC13CancelRace", "quick": {"preemptions": 1}, "thorough": {"preemptions": 2}, "replay": "interpreted", "max-paths": 3000000,
@@ -265,9 +265,9 @@ CHECKS = {
             {"pkg": "./server/encryption", "overlay": "encryption", "pkgname": "encryption",
              "env": {"VERIF_MASTER_KEY": "0123456789abcdef0123456789abcdef"},
              "harnesses": [
-                 {"name": "VerifC17RoundTrip", "quick": {"maxlen": 8}, "thorough": {"maxlen": 32}, "covers": ["done"], "targets": ["LocalEncryptionHandler).Seal", "LocalEncryptionHandler).Read"]},
-                 {"name": "VerifC17Batch", "quick": {"maxlen": 3}, "thorough": {"maxlen": 6}, "covers": ["done"], "targets": ["LocalEncryptionHandler).Seal", "LocalEncryptionHandler).Read"]},
-                 {"name": "VerifC17ReadTotal", "quick": {"maxlen": 6}, "thorough": {"maxlen": 48}, "covers": ["done", "error"], "targets": ["LocalEncryptionHandler).Read"]},
+                 {"name": "VerifC17RoundTrip", "quick": {"maxlen": 32}, "thorough": {"maxlen": 64}, "covers": ["done"], "targets": ["LocalEncryptionHandler).Seal", "LocalEncryptionHandler).Read"]},
+                 {"name": "VerifC17Batch", "quick": {"maxlen": 4}, "thorough": {"maxlen": 8}, "covers": ["done"], "targets": ["LocalEncryptionHandler).Seal", "LocalEncryptionHandler).Read"]},
+                 {"name": "VerifC17ReadTotal", "quick": {"maxlen": 48}, "thorough": {"maxlen": 80}, "covers": ["done", "error"], "targets": ["LocalEncryptionHandler).Read"]},
                  {"name": "VerifC17Truncated", "covers": ["done"], "targets": ["LocalEncryptionHandler).decryptData"]},
                  {"name": "VerifC17Tampered", "covers": ["done"], "targets": ["LocalEncryptionHandler).Read"]},
                  {"name": "VerifC17Substituted", "covers": ["done"], "targets": ["LocalEncryptionHandler).Read", "LocalEncryptionHandler).unwrapDEK", "LocalEncryptionHandler).decryptData"]},
@@ -337,16 +337,16 @@ CHECKS = {
         "groups": [
             {"pkg": "./server/protocol", "overlay": "protocol", "pkgname": "protocol",
              "harnesses": [
-                 {"name": "VerifC14CheckEnvelope", "quick": {"maxlen": 14}, "thorough": {"maxlen": 24},
+                 {"name": "VerifC14CheckEnvelope", "quick": {"maxlen": 40}, "thorough": {"maxlen": 96},
                   "covers": ["accepted", "rejected", "accepted-with-crc"], "targets": ["checkEnvelope", "hasBit"]},
-                 {"name": "VerifC14ReplicationResponse", "quick": {"maxlen": 26}, "thorough": {"maxlen": 34},
+                 {"name": "VerifC14ReplicationResponse", "quick": {"maxlen": 48}, "thorough": {"maxlen": 96},
                   "covers": ["accepted", "rejected"], "targets": ["UnmarshalReplicationResponse", "checkEnvelope"]},
-                 {"name": "VerifC14Wrappers", "quick": {"maxpayload": 3}, "thorough": {"maxpayload": 6}, "replay": "interpreted",
+                 {"name": "VerifC14Wrappers", "quick": {"maxpayload": 12}, "thorough": {"maxpayload": 24}, "replay": "interpreted",
                   "covers": ["same-type", "other-type"], "targets": ["marshalEnvelope", "unmarshalEnvelope", "UnmarshalRaftJoinResponse", "WriteReplicationResponseHeader"]},
              ]},
             {"pkg": "./server", "overlay": "server", "pkgname": "server",
              "harnesses": [
-                 {"name": "VerifC14NatsMessage", "quick": {"maxlen": 12}, "thorough": {"maxlen": 20}, "replay": "interpreted",
+                 {"name": "VerifC14NatsMessage", "quick": {"maxlen": 32}, "thorough": {"maxlen": 64}, "replay": "interpreted",
                   "covers": ["decoded", "decoder-refused", "not-an-envelope"], "targets": ["natsToProtoMessage", "getMessage", "UnmarshalPublish", "checkEnvelope"]},
              ]},
         ],
@@ -392,7 +392,7 @@ META = {
     "C19": {"text": "Symbolic execution of the real collector (New/Start/run/sendTelemetry/collectPayload/loadOrCreateInstanceID) with a symbolic enabled flag, a virtual clock that lets two reporting intervals pass, memFS for the instance-id file and the HTTP stack as an effect recorder: disabled => no request at all; enabled => endpoint fixed, JSON keys within the documented set, the data directory string (standing for everything the server passes in) absent from URL, headers and body. This is the thinnest check of the set: one symbolic boolean; its value is that it re-derives the key set and the data flow from the current source on every run.",
             "design_ref": "DESIGN.md §4 C19", "note": "the configuration-to-wire harness runs the real parseTelemetryConfig over a viper stand-in (independent symbolic answer per key) and the real Server.Start with the rest of the start-up as no-op stand-ins; what is not decided: viper's own env/file resolution, the real HTTP transport, what the OS reveals through runtime.Version()", "technique": TECH},
     "C17": {"text": "Bounded symbolic model checking of the framing and data flow of server-side encryption: Seal/Read round trip for every value up to the bound, Read total (error, never a panic) on every byte string up to the bound, on every truncation of a sealed value and on every corruption of the key-size byte. The cryptography itself is replaced by stand-ins and is not claimed.",
-            "design_ref": "DESIGN.md §4 C17", "note": "bounds: values 0-8 (32) bytes, 2-3 values of 0-3 (6) bytes sealed before any is read (a leader batch), arbitrary stored forms 0-6 (48) bytes; what is NOT decided: that the log never contains plaintext (needs the real cipher), tampering inside the AEAD/KWP blobs, distinct master keys; the leader-loop data flow (value handed to Append is the Seal output) is part of the C04/C16 partition harness", "technique": TECH},
+            "design_ref": "DESIGN.md §4 C17", "note": "bounds: values 0-32 (64) bytes, 2-3 values of 0-4 (8) bytes sealed before any is read (a leader batch), arbitrary stored forms 0-48 (80) bytes; what is NOT decided: that the log never contains plaintext (needs the real cipher), tampering inside the AEAD/KWP blobs, distinct master keys; the leader-loop data flow (value handed to Append is the Seal output) is part of the C04/C16 partition harness", "technique": TECH},
     "C10": {"text": "Bounded symbolic model checking of the implementation: partition.Subscribe with its real subscription loop on dense, compacted (offset gaps), retention-trimmed and empty logs, HW at or below the end, read-only or not; start position (5) x stop position (4) x direction (2) with symbolic offsets and timestamps; delivered sequence and termination compared with a specification function. Plus the timestamp look-ups on symbolic layouts (incl. an empty active segment) and a reader kept open across two compactions with symbolic keys.",
             "design_ref": "DESIGN.md §4 C10", "note": "bounds: 4 messages (one per segment) per shape, offsets in [-1,newest+2], timestamps in [0,50] against message times 10..40; look-ups: 3-5 messages, segment size 40..200; reverse x stop-timestamp not asserted", "technique": TECH},
     "C13": {"text": "Bounded symbolic model checking of the implementation: partition.Subscribe with its real subscription-loop goroutines on a real commit log; the history of group subscribes (two consumer ids, so the same id can return; epochs arbitrary 64-bit values decided by the solver), client departures and message deliveries is explored exhaustively within the bound and compared with a holder model at every quiescent point.",
@@ -410,7 +410,7 @@ META = {
     "C09": {"text": "Bounded symbolic model checking of the implementation: real retention cleaning on a real log over memFS with symbolic byte/message/age limits, symbolic clock and an append racing the clean; suffix-only, newest kept, minimality, every limit afterwards, files removed, contiguous read-back, idempotence.",
             "design_ref": "DESIGN.md §4 C09", "note": "bounds: 4 (quick) / 5 (thorough) single-message appends, segment size 40..200 (so 1-5 segments of 1-4 messages), values of 1 or 4 bytes; limits and TTL full 64-bit", "technique": TECH},
     "C14": {"text": "Bounded symbolic model checking of the implementation: checkEnvelope, the hand-rolled replication response decoder, all 15 typed Marshal*/Unmarshal* wrapper pairs (own type decodes and hands the decoder exactly the encoder's bytes, every other type is refused) and the server's natsToProtoMessage (decoded envelope or verbatim value, NATS subject/reply headers not spoofable) are executed symbolically over every byte string up to the stated length; run-time panics are explicit paths; each assertion is an SMT query (unsat on every path = holds for all inputs within the bound).",
-            "design_ref": "DESIGN.md §4 C14", "note": "bound: data length <= 14 (quick) / 24 (thorough) for checkEnvelope, 26/34 for the replication response, payload <= 3/6 bytes for the wrapper pairs, 12/20 bytes for natsToProtoMessage; the protobuf codec behind the envelope is a stand-in (assumed total); CRC is an uninterpreted function", "technique": TECH},
+            "design_ref": "DESIGN.md §4 C14", "note": "bound: data length <= 40 (quick) / 96 (thorough) for checkEnvelope, 48/96 for the replication response, payload <= 12/24 bytes for the wrapper pairs, 32/64 bytes for natsToProtoMessage; the protobuf codec behind the envelope is a stand-in (assumed total); CRC is an uninterpreted function", "technique": TECH},
 }
 
 _PENDING = "check not built yet in this session; see DESIGN.md §4 for the planned harness"
